@@ -34,6 +34,9 @@ type World struct {
 	Stats   *Stats
 	tags    []string
 	curF    string // the concrete operator of the step being executed (for the divergence label)
+	caller  []callerSlice // int slices handed to the library by the "caller" (this harness)
+	free    bool   // free-running mode (trace recording): no model state is available
+	ncells  int    // free mode: cells allocated so far
 }
 
 type Stats struct {
@@ -97,6 +100,30 @@ func safeCall(f func() execResult) (r execResult) {
 		}
 	}()
 	return f()
+}
+
+type callerSlice struct {
+	what string
+	orig []int
+	cur  []int
+}
+
+// own returns a caller-owned copy of xs that the harness keeps watching: the library must never mutate,
+// retain-and-recycle or otherwise change it (C19).
+func (w *World) own(what string, xs []int) []int {
+	cur := append(make([]int, 0, len(xs)), xs...)
+	w.caller = append(w.caller, callerSlice{what: what, orig: append([]int{}, xs...), cur: cur})
+	return cur
+}
+
+// CallerChanged reports the first caller-owned slice that no longer holds what the caller put there.
+func (w *World) CallerChanged() string {
+	for _, c := range w.caller {
+		if !eqInts(c.orig, c.cur[:len(c.orig)]) || len(c.cur) != len(c.orig) {
+			return fmt.Sprintf("%s: the caller's slice %v now reads %v", c.what, c.orig, c.cur)
+		}
+	}
+	return ""
 }
 
 // Outcome of running one case under one configuration.
@@ -205,6 +232,10 @@ func Run(c *Case, cfg Config, stats *Stats) (*Divergence, Outcome) {
 				stats.Diverged++
 				return d, Diverged
 			}
+		}
+		if msg := w.CallerChanged(); msg != "" {
+			stats.Diverged++
+			return w.div(i, "caller-slice", msg), Diverged
 		}
 		if st.Post != nil {
 			d, open := w.compare(i, st.Post)
@@ -531,6 +562,9 @@ func (w *World) compareAlt(i int, st *Step, r execResult) *Divergence {
 
 // cellDT: the element type of the allocation a cell belongs to ("" = the element type of the run)
 func (w *World) cellDT(id int) *vals.DT {
+	if w.free {
+		return w.Cfg.D
+	}
 	p := w.finalPost()
 	for _, a := range p.Allocs {
 		if id >= a.Start && id < a.Start+a.Len {
@@ -550,6 +584,9 @@ func (w *World) cellDT(id int) *vals.DT {
 // "f-operand" some tensor operand is column-major; "mixed-order" operands / destination differ in data order.
 func (w *World) noteOrderTags(st *Step) {
 	w.curF = ""
+	if w.free {
+		return
+	}
 	switch st.Op.K {
 	case "Arith", "Cmp", "Unary", "Reduce", "Arg":
 		if x := decodeArr(st.Op.A); len(x) > 0 {
